@@ -994,8 +994,15 @@ class Engine(object):
             cur = vs[0]
             ok = True
             for op, nxt in zip(e.ops, vs[1:]):
+                if isinstance(op, (ast.In, ast.NotIn)) and nxt is NONE and not ctx.spec:
+                    # `x in None` raises TypeError in Python: an exception-freedom obligation, not an engine limit
+                    self.fail(p, "safe.in_none#%d" % self.site(), "argument of type 'NoneType' is not iterable")
+                    ok = False
+                    break
                 terms.append(self.compare(op, cur, nxt, p, ctx))
                 cur = nxt
+            if not ok:
+                continue
             t = terms[0] if len(terms) == 1 else z3.And(*terms)
             out.append((p, Bool(t)))
         return out
@@ -1130,6 +1137,10 @@ class Engine(object):
             except KeyError:
                 if ctx.spec:
                     raise SpecError("no attribute %s on %r" % (attr, o))
+                if o.id not in getattr(self, "_constructed", ()):
+                    # the object was described field by field in a contract's setup: an attribute the setup does not list
+                    # is outside the contract's object model (e.g. one added to __init__ later) - not an AttributeError
+                    raise Unsupported("attribute %s of a %s is not part of the contract's object model" % (attr, o.cls[1]))
                 return self.fail(P, "safe.attr.%s#%d" % (attr, self.site()), "attribute %s unset" % attr)
             return [(P, Bound(Func(fn, m, (), attr, cls=o.cls[1], qual="%s.%s.%s" % (m, o.cls[1], attr)), o))]
         if isinstance(o, Ref):
@@ -1494,6 +1505,16 @@ class Engine(object):
             return it.payload
         return None
 
+    def ev_Yield(self, e, P, ctx):
+        if e.value is None:
+            raise Unsupported("bare yield")
+        out = []
+        for (p, v) in self.ev(e.value, P, ctx):
+            lst = self.lookup(p, ctx, "yielded")
+            for (q, _) in self.models["method.append"](self, p, ctx, lst, v):
+                out.append((q, NONE))
+        return out
+
     def ev_Starred(self, e, P, ctx):
         raise Unsupported("starred expression")
 
@@ -1731,14 +1752,26 @@ class Engine(object):
                 for (p, v) in res:
                     p.depth -= 1
                 return res
+            gen = None
             if any(isinstance(n, (ast.Yield, ast.YieldFrom)) for n in ast.walk(f.node)):
-                raise Unsupported("generator function %s" % f.name)
+                # A-GEN: a generator whose body has no side effects is modelled by the LIST of the values it yields when it
+                # is run to exhaustion (ghost list `yielded`, element kind from the contract's "yields")
+                ykind = (self.contracts.get(f.qual) or {}).get("yields") if f.qual else None
+                if ykind is None or any(isinstance(n, ast.YieldFrom) for n in ast.walk(f.node)):
+                    raise Unsupported("generator function %s" % f.name)
+                gen = self.new_slist(P, ykind, "yielded")
+                d = dict(P.get(fr))
+                d["yielded"] = gen
+                P.put(fr, d)
+                self.assume_used("A-GEN")
             self.index_loops(f.node)
             outs = self.exec_block(f.node.body, P, c2, self.nonlocals_of(f.node))
             res = []
             for (p, o) in outs:
                 p.depth -= 1
-                if o[0] == "ret":
+                if gen is not None and o[0] in ("ret", "next"):
+                    res.append((p, gen))
+                elif o[0] == "ret":
                     res.append((p, o[1]))
                 elif o[0] == "next":
                     res.append((p, NONE))
@@ -1797,6 +1830,8 @@ class Engine(object):
             obj = r
         else:
             obj = P.new("obj", {}, cls=(c.mod, c.name))
+            self._constructed = getattr(self, "_constructed", set())
+            self._constructed.add(obj.id)       # built by the REAL constructor on this path: its attribute set is exact
         try:
             m, init = self.repo.method(c.mod, c.name, "__init__")
         except KeyError:
@@ -2091,7 +2126,7 @@ class Engine(object):
         raise Unsupported("assignment target %s" % type(t).__name__)
 
     def setattr(self, P, ctx, o, attr, v):
-        self.guard_global_write(o)
+        self.guard_global_write(o, P)
         if isinstance(o, Handle) and o.kind == "obj":
             d = dict(P.get(o))
             d[attr] = v
@@ -2104,12 +2139,17 @@ class Engine(object):
             return
         raise Unsupported("attribute store on %r" % (o,))
 
-    def guard_global_write(self, o):
+    def guard_global_write(self, o, P=None):
         if isinstance(o, Handle) and o.id in getattr(self, "_global_ids", ()) and not getattr(self, "_in_module_init", False):
+            if P is not None and (self.contracts.get(self.current) or {}).get("module_state") == "obligation":
+                # this contract's frame excludes module-level state and SAYS a write is the violation (C10)
+                self.oblige(P, "frame.module_state_untouched#%d" % self.site(), z3.BoolVal(False), "frame",
+                            {"detail": "the path writes into a module-level object"})
+                return
             raise Unsupported("write into a module-level object (global state is outside the model)")
 
     def setitem(self, P, ctx, o, k, v):
-        self.guard_global_write(o)
+        self.guard_global_write(o, P)
         if isinstance(o, Handle) and o.kind == "dict":
             d = dict(P.get(o))
             d[self.dict_key(k)] = v
